@@ -46,6 +46,9 @@ def atoms(M):
         "loop": [A(p + "r[i]", "i + <t> + " + p, [("i", "0", "3")])],
         # a statement repeated n times: the counter occurs in the loop header only
         "repeat": [A(p, p + " + 2", [("i", "0", "2")])],
+        # the same with a counter name of several characters, which the other method may use as a per-step variable
+        "repeat-idx": [A(p, p + " + 3", [("idx", "0", "2")])],
+        "idx-temp": [A("idx", "<state>y + 1"), A(p, "idx + " + p)],
         "tmp-loop": [A("w", "<builtin>array(3)"), A("w[i]", "i * 2", [("i", "0", "3")]), A(p, p + " + w[2]")],
         "loop-n": [A("n", "2"), A(p + "r[i]", "7", [("i", "0", "n")])],
         "yield": [["Y", p, M, "<t>", "tid"]],
